@@ -57,6 +57,11 @@ class Ctx:
         self.rng = random.Random(f"{pid}:{seed}")
         self.t0 = time.time()
         self.build = VERIF / "build" / pid
+        # one run per property at a time: the build directory is wiped below (lock held until the process exits)
+        import fcntl
+        (VERIF / "build").mkdir(exist_ok=True)
+        self._lock = open(VERIF / "build" / f".lock-{pid}", "w")
+        fcntl.flock(self._lock, fcntl.LOCK_EX)
         if self.build.exists():
             shutil.rmtree(self.build)
         self.build.mkdir(parents=True)
